@@ -106,6 +106,32 @@ pub fn ret_err(f: u64) {
         log2("io.ret", f + 512, 0);
     }
 }
+/// first event of a trace: the capacity (elements) of every tracked pipe, as measured by the scenario
+pub fn cap(n: u64) {
+    if on() {
+        mayv::ctx().log("io.cap", n, 0, None);
+    }
+}
+/// how many writes of `chunk` bytes a fresh unix stream connection with the given SO_SNDBUF request takes before it
+/// answers EAGAIN (every write is one skb charged to the sender until the peer has read it completely)
+pub fn probe_stream_capacity(chunk: usize, setbuf: &dyn Fn(i32)) -> u64 {
+    use std::io::Write;
+    use std::os::unix::io::AsRawFd;
+    let (mut a, b) = std::os::unix::net::UnixStream::pair().expect("probe pair");
+    setbuf(a.as_raw_fd());
+    setbuf(b.as_raw_fd());
+    a.set_nonblocking(true).expect("nonblocking");
+    let buf = vec![0u8; chunk];
+    let mut n = 0u64;
+    while n < 100_000 {
+        match a.write(&buf) {
+            Ok(k) if k == chunk => n += 1,
+            _ => break,
+        }
+    }
+    drop(b);
+    n
+}
 /// the calling coroutine is victim `k` of a later `cancel(k)`
 pub fn actor(k: u64) {
     if on() {
